@@ -7,6 +7,7 @@ Case lines (built by `harness/src/bin/c04.rs`):
 * `C04.<op> <pattern> <type> <shapeA>:<valsA> <shapeB>:<valsB>`
 * `C04.clip R3 <type> <A> <LO> <HI>`
 * `C04.comm <op> <pattern> <type> <A> <B>`
+* `C04.seq <case> / <case> / …` (each `<case>` one of the above without the `C04.` prefix)
 
 Values are opaque tokens for the model (decimal integers, `x<16 hex digits>` for the bits of an f64); the only thing
 the model reads from them is whether a token of the second operand is a zero (`0`, `+0.0`, `-0.0`) — the divisor guard.
@@ -40,7 +41,8 @@ def unorderedK (x y : Nat × Bool) : Nat × Nat := (min x.1 y.1, max x.1 y.1)
 
 def retag (off : Nat) (a : Arr (Nat × Bool)) : Arr (Nat × Bool) := ⟨a.elems.map (fun p => (p.1 + off, p.2)), a.shape⟩
 
-def handle (op : String) (args : List String) : Option String :=
+/-- one call -/
+def handle1 (op : String) (args : List String) : Option String :=
   match op, args with
   | "comm", [_name, pat, _ty, a, b] => do
     let p ← Pattern.ofString pat
@@ -61,6 +63,23 @@ def handle (op : String) (args : List String) : Option String :=
     let a ← parseTagged? a; let b ← parseTagged? b
     some (showRes showPairs (p.run (fun t => t.2) pairK a b))
   | _, _ => none
+
+/-- the token list cut at every separator token -/
+def splitTok (sep : String) : List String → List (List String)
+  | [] => [[]]
+  | x :: xs =>
+    match splitTok sep xs with
+    | [] => [[x]]
+    | g :: gs => if x == sep then [] :: g :: gs else (x :: g) :: gs
+
+/-- `seq call / call / …`: several calls executed one after the other on the same thread (hidden-state streams of the harness);
+the answer is the list of the single answers -/
+def handle (op : String) (args : List String) : Option String :=
+  match op with
+  | "seq" => do
+    let answers ← (splitTok "/" args).mapM (fun p => match p with | o :: as => handle1 o as | [] => none)
+    some (" / ".intercalate answers)
+  | _ => handle1 op args
 
 end Driver.C04
 
